@@ -846,3 +846,4 @@ StandIn("C13/sampler-sequences", "C13",
 
 from runtime import scopes_e2e  # noqa: E402,F401  (registers the Calibrator-level stand-ins)
 from runtime import scopes_loss  # noqa: E402,F401
+from runtime import scopes_ckpt  # noqa: E402,F401
